@@ -137,11 +137,20 @@ def _run_filter(ctx: Ctx):
     for k in range(ctx.scale(250, 4000)):
         cases.append((f"gen:{k}", rig.gen_case(rng, max_frames=ctx.scale(12, 24))))
     impl_all, lines_all, bounds = [], [], []
+    kept, build_bad = [], []
     for name, case in cases:
-        impl, lines = rig.run_impl(case)
+        try:
+            impl, lines = rig.run_impl(case)
+        except Exception as e:  # the implementation raised while the element was being BUILT / configured: no frame to blame
+            build_bad.append(f"{name}: {type(e).__name__}: {str(e)[:100]}")
+            continue
+        kept.append((name, case))
         bounds.append((len(lines_all), len(lines)))
         lines_all += lines
         impl_all.append(impl)
+    cases = kept
+    ctx.oblige("rig:R-filter every generated element could be built and configured on the implementation", "correspondence", not build_bad,
+               "; ".join(build_bad[:5]))
     model_all = run_driver(EXE, lines_all)
     agree = 0
     for (name, case), impl, (st, ln) in zip(cases, impl_all, bounds):
@@ -162,6 +171,10 @@ def _run_filter(ctx: Ctx):
                 nontrivial = True
             if parts["sent"]:
                 ctx.count("filter:sent")
+            if " raised:" in a:
+                ctx.violation({"kind": "exception-in-frame-processing", "element": case["kind"], "exc": a.split(" raised:")[1]},
+                              f"{case['kind']}: the element's frame processing raised {a.split(' raised:')[1]} on `{q}`",
+                              {"rig": "filter", "case": case, "line": q, "impl": a, "from": name})
             bad = rig.per_frame_oracle(a)
             if bad:
                 ctx.violation({"kind": "denied-frame-not-inert", "element": case["kind"], "acl": acls[-1].split(":")[0]},
